@@ -9,6 +9,67 @@ import sys
 import traceback
 
 
+# library features the evaluator has no summary for: a function that uses one is evaluated with unknown values in the
+# middle, and a difference found behind an unknown value is not a reliable difference
+UNMODELLED_LIBS = ('functools.', 'operator.', 'itertools.', 'contextlib.', 'collections.')
+MODELLED = {'functools.wraps', 'functools.lru_cache', 'functools.cache', 'itertools.repeat', 'collections.abc.Generator',
+            'collections.abc.Iterator', 'collections.namedtuple', 'collections.OrderedDict'}
+
+
+def unmodelled_library_uses(prog, quals):
+    import ast
+    out = set()
+    for q in quals:
+        fi = prog.functions.get(q)
+        if fi is None:
+            continue
+        imps = fi.module.imports
+        nodes = list(ast.walk(fi.node))
+        for n in nodes:
+            dotted = None
+            if isinstance(n, ast.Name) and isinstance(n.ctx, ast.Load) and n.id in imps and n.id not in fi.params:
+                imp = imps[n.id]
+                dotted = imp[1] if imp[0] == 'module' else '%s.%s' % (imp[1], imp[2])
+            elif isinstance(n, ast.Attribute) and isinstance(n.value, ast.Name) and n.value.id in imps and imps[n.value.id][0] == 'module':
+                dotted = '%s.%s' % (imps[n.value.id][1], n.attr)
+            if dotted and dotted.startswith(UNMODELLED_LIBS) and dotted not in MODELLED and dotted.rstrip('.') not in (
+                    'functools', 'operator', 'itertools', 'contextlib', 'collections'):
+                out.add(dotted)
+            if dotted in ('dataclasses.field', 'dataclasses.replace', 'dataclasses.asdict', 'dataclasses.astuple'):
+                out.add(dotted)
+            # record helpers and class machinery the evaluator does not model
+            if isinstance(n, ast.Attribute) and n.attr in ('_replace', '_asdict', '_make', '_fields', '__dict__', '__subclasses__'):
+                out.add('.%s' % n.attr)
+    # class machinery anywhere in the modules the consulted functions live in (the evaluator never calls these hooks, so it
+    # does not see a class that depends on them the way Python does)
+    mods = {prog.functions[q].module for q in quals if q in prog.functions}
+    for c_ in prog.classes.values():
+        if c_.module not in mods:
+            continue
+        for dn in ('__init_subclass__', '__post_init__', '__get__', '__set__', '__set_name__', '__getattr__', '__getattribute__',
+                   '__setattr__', '__class_getitem__', '__new__'):
+            if dn in c_.methods:
+                out.add('%s.%s' % (c_.name, dn))
+        for st in c_.node.body:
+            for n in ast.walk(st) if not isinstance(st, ast.FunctionDef) else []:
+                if isinstance(n, ast.Call) and ast.unparse(n.func).split('.')[-1] == 'field' and any(
+                        kw.arg in ('default_factory', 'init', 'compare') for kw in n.keywords):
+                    out.add('dataclasses.field in %s' % c_.name)
+    return sorted(out)
+
+
+def _downgrade_for_unmodelled_libraries(ctx, prog, consulted):
+    uses = unmodelled_library_uses(prog, consulted)
+    if not uses:
+        return
+    for ob in ctx.obligations:
+        if ob.verdict == 'VIOLATED' and not ob.rule.endswith('.PURE'):
+            ob.verdict = 'UNDECIDED'
+            ob.details.append('the functions this property consults use %s, which the evaluator has no summary for: values behind '
+                              'such a call are unknown to it, so the differences listed above are not reported as violations'
+                              % ', '.join(uses))
+
+
 def main(argv=None):
     if os.environ.get('PYTHONHASHSEED') != '0' and argv is None:
         # deterministic set order (see vcheck): re-execute with the fixed seed when started some other way
@@ -84,6 +145,7 @@ def main(argv=None):
                 print(l)
             return code
         check_purity(ctx, pid, sorted(_ev.Evaluator.TRACE))
+        _downgrade_for_unmodelled_libraries(ctx, prog, sorted(_ev.Evaluator.TRACE))
         if a.tier == 'thorough' and hasattr(mod, 'thorough'):
             mod.thorough(ctx)
         if a.tier == 'thorough' and not os.environ.get('VERIF_NO_MUTANTS'):
